@@ -587,6 +587,8 @@ _psy("lf_quad_dm", "dynamo0.3", "dynamo0p3/1.1.0_single_invoke_xyoz_qr.f90",
      True)
 _psy("lf_quad_face", "dynamo0.3",
      "dynamo0p3/1.1.6_face_qr.f90", False)
+_psy("lf_2qr_int", "dynamo0.3",
+     "dynamo0p3/1.1.9_single_invoke_2qr_shapes_int_field.f90", False)
 _psy("lf_stencil_dm", "dynamo0.3", "dynamo0p3/19.1_single_stencil.f90", True)
 _psy("lf_wtheta_dm", "dynamo0.3", "dynamo0p3/1_single_invoke_wtheta.f90",
      True, tiers=("thorough",))
